@@ -36,7 +36,7 @@ func init() {
 		Require: func(string) map[string]int64 {
 			return map[string]int64{
 				"fn:H2G": 1000, "fn:E2G": 500, "dst:oversize": 100, "dst:len=255": 5, "dst:len=256": 5, "panic:empty-dst": 6,
-				"h2g:sq-sq": 50, "h2g:sq-nsq": 50, "h2g:nsq-sq": 50, "h2g:nsq-nsq": 50, "sswu:flipped": 100, "sswu:not-flipped": 100, "layout:spare8": 50, "layout:interior": 50, "dst:huge": 8, "reuse-sequences": 100, "reuse-calls": 300, "concurrent-batches": 4, "pipeline": 500,
+				"h2g:sq-sq": 50, "h2g:sq-nsq": 50, "h2g:nsq-sq": 50, "h2g:nsq-nsq": 50, "sswu:flipped": 100, "sswu:not-flipped": 100, "layout:spare8": 50, "layout:interior": 50, "dst:huge": 8, "reuse-sequences": 100, "reuse-calls": 300, "concurrent-batches": 4, "pipeline": 500, "class:pipeline-steered": 300, "sequences": 100, "class:length-sweep": 500,
 			}
 		},
 	})
@@ -72,6 +72,24 @@ func c08Generate(c *mon.Ctx) {
 		c.Structured(func() any { return &h2cCase{Fn: "pipeline", Uniform: two, Class: "pipeline"} })
 	}
 
+	// chosen u: expander output 0^16 || u reduces to u itself, so every steered map input of C11 (steer.go) can be pushed
+	// through the library's own reduction, map, isogeny and final addition
+	us, _ := steeredMapInputs(c)
+	pad := make([]byte, 16)
+
+	for i, su := range us {
+		one := append(append([]byte{}, pad...), oracle.Bytes32(su.V)...)
+		other := us[(i*7+3)%len(us)].V
+		two := append(append(append([]byte{}, one...), pad...), oracle.Bytes32(other)...)
+		h1, h2 := mon.H(one), mon.H(two)
+
+		c.Structured(func() any { return &h2cCase{Fn: "pipeline", Uniform: h1, Class: "pipeline-steered"} })
+
+		if i%3 == 0 {
+			c.Structured(func() any { return &h2cCase{Fn: "pipeline", Uniform: h2, Class: "pipeline-steered"} })
+		}
+	}
+
 	c.Random(c.N(2000, 200000), func(r *gen.Rng) any {
 		return &h2cCase{Fn: "pipeline", Uniform: mon.H(r.Bytes(48 * (1 + r.Intn(2)))), Class: "pipeline"}
 	})
@@ -83,6 +101,7 @@ func c08RunPipeline(c *mon.Ctx, cs *h2cCase) {
 	u := mon.UnH(cs.Uniform)
 
 	c.Count("pipeline")
+	c.Count("class:" + cs.Class)
 	c.Eval(1)
 
 	var (
@@ -143,6 +162,10 @@ func c08Run(c *mon.Ctx, csAny any) {
 
 	c.Count("fn:" + cs.Fn)
 	c.Count("layout:" + cs.Layout)
+
+	if cs.Class == "length-sweep" {
+		c.Count("class:length-sweep")
+	}
 
 	call := func(m, d []byte) *secp256k1.Element {
 		if cs.Fn == "H2G" {
